@@ -51,6 +51,11 @@ MUST_REACH = [
     "cirq/circuits/qasm_output.py:QasmOutput._generate_cregs",
     "cirq/circuits/qasm_output.py:QasmOutput.save",
     "cirq/value/condition.py:KeyCondition._qasm_",
+    "cirq/value/condition.py:SympyCondition.qasm",
+    "cirq/circuits/circuit.py:Circuit.to_qasm", "cirq/circuits/circuit.py:Circuit._qasm_",
+    "cirq/circuits/circuit.py:Circuit.save_qasm", "cirq/circuits/qasm_output.py:QasmOutput.__str__",
+    "cirq/linalg/decompositions.py:kak_decomposition",
+    "cirq/linalg/decompositions.py:deconstruct_single_qubit_matrix_into_angles",
     "cirq/ops/measurement_gate.py:MeasurementGate._qasm_",
     "cirq/ops/controlled_operation.py:ControlledOperation._qasm_",
     "cirq/ops/classically_controlled_operation.py:ClassicallyControlledOperation._qasm_",
@@ -753,7 +758,11 @@ def _dist_case(ctx, rng, case, steps, n, section, version=None, precision=None, 
             s2["wires"] = [pos[w] for w in s["wires"]]
         return s2
 
-    want = ref_distribution([relabel(s) for s in steps], len(order), keys)
+    try:
+        want = ref_distribution([relabel(s) for s in steps], len(order), keys)
+    except OverflowError:
+        ctx.reject("harness:too-many-branches")
+        return
     # ---- parse
     try:
         prog = R.parse(text)
@@ -1160,8 +1169,8 @@ def sec_reject(ctx, rng, case):
 
 
 SECTIONS = [
-    ("unitary", sec_unitary, 9800, 120000, 3.0),
-    ("mnemonic", sec_mnemonic, 9800, 80000, 2.0),
+    ("unitary", sec_unitary, 7000, 120000, 4.0),
+    ("mnemonic", sec_mnemonic, 7000, 80000, 3.0),
     ("measure", sec_measure, 7000, 60000, 1.5),
     ("control", sec_control, 7000, 60000, 1.5),
     ("control_multibit", sec_control_multibit, 1120, 8000, 0.5),
